@@ -27,12 +27,13 @@ inductive Out where
   | goodbye     -- the unregister-all datagram (TTL 0 for every registered service)
   | callback    -- ServiceListener / browser handler / lookup listener invoked
   | raised (e : Exc)   -- an exception delivered to the caller of `async_close` / an API call (not to the loop)
+  | loopError          -- an exception escaping a timer / task callback into the event loop's exception handler
   deriving DecidableEq, Repr
 
 /-- something observable on the network or by a listener (an exception handed back to a caller is not) -/
 def Out.isEmission : Out → Bool
   | .send | .goodbye | .callback => true
-  | .raised _ => false
+  | .raised _ | .loopError => false
 
 structure Browser where
   /-- in `AsyncZeroconf.async_browsers` (so `async_close` cancels it) -/
@@ -82,8 +83,9 @@ structure Host where
   browsers : List Browser
   /-- answer groups waiting in the two aggregation queues (their timer is armed iff > 0) -/
   outq : Nat
-  /-- armed deferred-TC timers -/
-  tc : Nat
+  /-- the listener's armed deferred-TC timers (`_timers`), each with the number of packets deferred for its address
+  (`len(_deferred[addr])`).  The timer callback does `packets[0]`: a `0` here is an `IndexError` waiting to happen. -/
+  tcs : List Nat
   /-- lookups (`async_request`) in progress -/
   lookups : Nat
   /-- `async_check_service` tasks in progress -/
@@ -101,12 +103,17 @@ inductive Api where
 
 /-- atomic blocks.  Numeric/boolean arguments say what the block would emit / do if nothing gated it. -/
 inductive Block where
-  /-- datagram arrives: immediate answers, answer groups queued, a TC deferral, record updates -/
-  | recv (sends queued : Nat) (defer updates : Bool)
+  /-- datagram arrives: immediate answers, answer groups queued, record updates; `defer`: it is a truncated query
+  that is parked — for the address of timer `deferAt` if that exists (one more packet, timer re-armed), else for a new
+  address (new timer) -/
+  | recv (sends queued : Nat) (defer updates : Bool) (deferAt : Nat := 0)
   /-- aggregation-queue timer; `ready`: a group is due and is sent -/
   | outqFire (ready : Bool)
-  /-- deferred-TC timer: assembled query answered -/
-  | tcFire (sends queued : Nat)
+  /-- deferred-TC timer `i` fires: `_respond_query(None, addr, …)` pops the deferred packets and answers the assembled
+  query — `packets[0]` raises `IndexError` into the loop if nothing is deferred for the address -/
+  | tcFire (sends queued : Nat) (i : Nat := 0)
+  /-- `protocol.connection_lost(None)`, scheduled by `transport.close()` -/
+  | connectionLost
   /-- scheduler timer of browser `i`: `queries` datagrams -/
   | schedFire (i : Nat) (queries : Nat)
   /-- periodic cache cleanup; `expired`: some record expired (listeners are told) -/
@@ -121,6 +128,9 @@ inductive Block where
   | startUp
   /-- `async_register_service` / `async_request` called: `async_wait_for_start` first -/
   | apiCall (k : Api)
+  /-- a browser is created (`AsyncServiceBrowser(...)` / `async_add_service_listener`): it registers as a listener and the
+  cached records of its types are replayed to it (`replay` callbacks) — there is no `done` test on this path -/
+  | apiBrowse (tracked : Bool) (replay : Nat)
   /-- a new close call.  async: wait for start if needed, cancel tracked browsers; both:
   `generate_unregister_all_services` + first goodbye -/
   | closeCall (sync : Bool)
@@ -151,6 +161,22 @@ def cancelTracked (bs : List Browser) : List Browser :=
 def setTimer (bs : List Browser) (i : Nat) (v : Bool) : List Browser :=
   bs.mapIdx (fun j b => if j = i then { b with timer := v } else b)
 
+/-- park one more truncated query: for timer `i` if armed, else under a new timer -/
+def deferOne (tcs : List Nat) (i : Nat) : List Nat :=
+  if i < tcs.length then tcs.modify i (· + 1) else tcs ++ [1]
+
+/-- `engine._async_close` after `sleep(0)`: `self._cleanup_timer.cancel()` (translated: the call is there) -/
+def cleanupAfterClose (armed : Bool) : Bool := if Gen.Shutdown.engine_close_cancels_cleanup then false else armed
+
+/-- `_async_shutdown`: every transport gets `close()` (translated: the call is there, and it is not `abort()`) -/
+def transportsAfterShutdown (closed : Bool) : Bool :=
+  if Gen.Shutdown.shutdown_closes_transports && !Gen.Shutdown.shutdown_aborts_transports then true else closed
+
+/-- `AsyncListener.connection_lost`: does nothing (translated: empty body); anything else is modelled as the worst
+case for the timers — the deferred packets are dropped, the timers stay -/
+def tcsAfterConnectionLost (tcs : List Nat) : List Nat :=
+  if Gen.Shutdown.connection_lost_is_noop then tcs else tcs.map (fun _ => 0)
+
 /-- number of goodbye transmissions of `async_unregister_all_services` after the first -/
 def moreGoodbyes : Nat := Gen.registerBroadcasts - 1
 
@@ -174,17 +200,21 @@ def wakeRaises (suppressed running done : Bool) : Bool :=
 
 /-- `none`: the block is not enabled in this state (it cannot occur) -/
 def step (h : Host) : Block → Option (Host × List Out)
-  | .recv sends queued defer updates =>
+  | .recv sends queued defer updates deferAt =>
     -- a closed transport delivers nothing
     if h.transportsClosed then none
-    else some ({ h with outq := h.outq + queued, tc := h.tc + (if defer then 1 else 0) },
+    else some ({ h with outq := h.outq + queued, tcs := if defer then deferOne h.tcs deferAt else h.tcs },
                gated h (List.replicate sends .send) ++ notify h updates)
   | .outqFire ready =>
     if h.outq = 0 then none
     else some ({ h with outq := if ready then h.outq - 1 else h.outq }, gated h (if ready then [.send] else []))
-  | .tcFire sends queued =>
-    if h.tc = 0 then none
-    else some ({ h with tc := h.tc - 1, outq := h.outq + queued }, gated h (List.replicate sends .send))
+  | .tcFire sends queued i =>
+    match h.tcs[i]? with
+    | none => none   -- not armed
+    | some 0 => some ({ h with tcs := h.tcs.eraseIdx i }, [.loopError])   -- `packets[0]` on an empty list
+    | some (_ + 1) => some ({ h with tcs := h.tcs.eraseIdx i, outq := h.outq + queued }, gated h (List.replicate sends .send))
+  | .connectionLost =>
+    if !h.transportsClosed then none else some ({ h with tcs := tcsAfterConnectionLost h.tcs }, [])
   | .schedFire i queries =>
     match h.browsers[i]? with
     | none => none
@@ -215,6 +245,8 @@ def step (h : Host) : Block → Option (Host × List Out)
     else match k with
       | .register => some ({ h with probing := h.probing + 1 }, [])
       | .lookup => some ({ h with lookups := h.lookups + 1 }, [])
+  | .apiBrowse tracked replay =>
+    some ({ h with browsers := h.browsers ++ [⟨tracked, false, !h.done && h.running, true⟩] }, List.replicate replay .callback)
   | .closeCall sync =>
     if !sync && Gen.Shutdown.close_waits_for_start h.done && !h.running then
       some ({ h with closes := h.closes ++ [⟨sync, .waitingStart⟩] }, [])
@@ -245,13 +277,14 @@ def step (h : Host) : Block → Option (Host × List Out)
   | .closeShutdown i =>
     match h.closes[i]? with
     | some ⟨false, .unregistering 0⟩ =>
-      some ({ h.setStage i false .shutdown with done := true, running := false, transportsClosed := true }, [])
+      some ({ h.setStage i false .shutdown with
+               done := true, running := false, transportsClosed := transportsAfterShutdown h.transportsClosed }, [])
     | some ⟨true, .doneSet⟩ =>
-      some ({ h.setStage i true .shutdown with running := false, transportsClosed := true }, [])
+      some ({ h.setStage i true .shutdown with running := false, transportsClosed := transportsAfterShutdown h.transportsClosed }, [])
     | _ => none
   | .closeFinish i =>
     match h.closes[i]? with
-    | some ⟨sync, .shutdown⟩ => some ({ h.setStage i sync .returned with cleanupArmed := false }, [])
+    | some ⟨sync, .shutdown⟩ => some ({ h.setStage i sync .returned with cleanupArmed := cleanupAfterClose h.cleanupArmed }, [])
     | _ => none
   | .closeAbort i =>
     match h.closes[i]? with
@@ -280,6 +313,21 @@ def WF (h : Host) : Prop :=
     (c.stage = .shutdown → h.done = true ∧ h.transportsClosed = true) ∧
     (c.stage = .returned → h.done = true ∧ h.transportsClosed = true ∧ h.cleanupArmed = false)
 
+/-- every armed deferred-TC timer has something to answer — the flag-machine form of C16's `TimerInv`
+("a TC timer is armed only for an address that has a deferred packet", `C16_timer_invariant`) -/
+def TcInv (h : Host) : Prop := ∀ n ∈ h.tcs, 0 < n
+
+instance (h : Host) : Decidable (TcInv h) := by unfold TcInv; infer_instance
+
+def isLoopError : Out → Bool
+  | .loopError => true
+  | _ => false
+
+/-- creating a browser is an API call that calls back by itself (cache replay), closed or not -/
+def Block.isBrowse : Block → Bool
+  | .apiBrowse _ _ => true
+  | _ => false
+
 def isGoodbye : Out → Bool
   | .goodbye => true
   | _ => false
@@ -303,6 +351,32 @@ def Block.mid : Block → Bool
 /-- interleavable around close `0`'s goodbyes: `mid`, and not a goodbye of any close -/
 def Block.mid3 (b : Block) : Bool := b.mid && (match b with | .closeGoodbye _ => false | _ => true)
 
+/-- the close call a block is a step of -/
+def Block.closeIndex : Block → Option Nat
+  | .closeWake i _ | .closeGoodbye i | .closeMarkDone i | .closeShutdown i | .closeFinish i | .closeAbort i => some i
+  | _ => none
+
+/-- progress measure of one close call -/
+def Close.rank (c : Close) : Nat :=
+  match c.stage with
+  | .waitingStart => 10
+  | .unregistering n => n + 4
+  | .doneSet => 3
+  | .shutdown => 2
+  | .returned | .aborted => 0
+
+/-- the block a close call performs next (a parked call is woken at the latest by its own timeout).  `none`: the call
+has ended — or the combination cannot arise (a sync close never parks, an async one never is in `doneSet`). -/
+def Close.next (c : Close) (k : Nat) : Option Block :=
+  match c.sync, c.stage with
+  | false, .waitingStart => some (.closeWake k true)
+  | _, .unregistering (_ + 1) => some (.closeGoodbye k)
+  | true, .unregistering 0 => some (.closeMarkDone k)
+  | false, .unregistering 0 => some (.closeShutdown k)
+  | true, .doneSet => some (.closeShutdown k)
+  | _, .shutdown => some (.closeFinish k)
+  | _, _ => none
+
 /-! ### the acceptors used by the correspondence harness -/
 
 inductive Kind where
@@ -312,7 +386,7 @@ inductive Kind where
 def hostOfFlags (done tclosed cleanup afterClose : Bool) (ncb : Nat) : Host :=
   { done := done, running := !tclosed, transportsClosed := tclosed, cleanupArmed := cleanup, registry := 1,
     browsers := ⟨false, false, true, true⟩ :: List.replicate (ncb - 1) ⟨false, false, false, true⟩,
-    outq := 1, tc := 1, lookups := 0, probing := 1, announcing := 1,
+    outq := 1, tcs := [1], lookups := 0, probing := 1, announcing := 1,
     closes := if afterClose then [⟨false, .returned⟩] else [] }
 
 def isSendOut : Out → Bool
@@ -325,14 +399,16 @@ def isCallbackOut : Out → Bool
 
 /-- one observed non-close block: the flags were read from the real objects when it started; the observed
 emission is the block's intent; the model must enable the block and emit no less than was observed -/
-def accepts (k : Kind) (done tclosed rxClosed cleanup afterClose : Bool) (nsend ncb : Nat) : String :=
+def accepts (k : Kind) (done tclosed rxClosed cleanup afterClose : Bool) (nsend ncb : Nat) (tcDeferred : Nat := 1) : String :=
   -- a host may have several transports (dedicated listen socket + respond socket): `tclosed` = all of them closed (what
   -- `Closed` needs), `rxClosed` = the one this datagram would arrive on; an arrival is judged against the latter
-  let h := hostOfFlags done (match k with | .recv => rxClosed | _ => tclosed) cleanup afterClose ncb
+  -- `tcDeferred`: the smallest number of deferred packets over the listener's armed TC timers, read from the real object
+  -- when the block started: with 0 the model's timer block raises into the loop, and the block is rejected
+  let h := { hostOfFlags done (match k with | .recv => rxClosed | _ => tclosed) cleanup afterClose ncb with tcs := [tcDeferred] }
   let b : Block := match k with
-    | .recv => .recv nsend 0 false (ncb > 0)
+    | .recv => .recv nsend 0 false (ncb > 0) 0
     | .outq => .outqFire (nsend > 0)
-    | .tc => .tcFire nsend 0
+    | .tc => .tcFire nsend 0 0
     | .sched => .schedFire 0 nsend
     | .cleanup => .cleanupFire (ncb > 0)
     | .task => .lookupStep nsend false
@@ -347,7 +423,8 @@ def accepts (k : Kind) (done tclosed rxClosed cleanup afterClose : Bool) (nsend 
     let cbOk := match k with
       | .recv | .cleanup => mc = ncb
       | _ => ncb = 0 || !afterClose   -- API-driven callbacks (browser start-up replay) only before close returns
-    if !sendOk then "reject:model-silent-but-sent" else if !cbOk then "reject:model-silent-but-called-back" else "ok"
+    if out.contains .loopError then "reject:timer-without-packet"
+    else if !sendOk then "reject:model-silent-but-sent" else if !cbOk then "reject:model-silent-but-called-back" else "ok"
 
 structure Flags where
   done : Bool
